@@ -102,6 +102,14 @@ pub fn check_data_consistency(
                     choice.course_index, i
                 ));
             }
+            if choice.penalty >= crate::caobab::WEIGHT_OFFSET as u32 {
+                return Err(format!(
+                    "Penalty {} of a choice of {}. participant is too large (must be smaller than {})",
+                    choice.penalty,
+                    i,
+                    crate::caobab::WEIGHT_OFFSET
+                ));
+            }
         }
     }
     for (i, c) in courses.iter().enumerate() {
